@@ -61,6 +61,7 @@ type FnCtx struct {
 	ghostDefs     map[string]bool
 	nq            int
 	modTargets    []modTarget
+	modDeferred   []string
 	poolVals      map[string]bool
 	immut         map[string]bool // heap names of immutable globals
 	nonNil        map[string]bool
@@ -287,6 +288,30 @@ func (fc *FnCtx) load(st *State, a *Addr) Val {
 		return fc.loadLoc(st, loc{name: lname(base, suffix), idx: idx, sort: sort, t: t})
 	})
 	fc.sc.assume(fc.typeInv(st, v))
+	if v.K == KFunc && a.Kind == AObj && len(a.Path) > 0 {
+		t := a.Root
+		var owner *types.Named
+		fname := ""
+		for _, i := range a.Path {
+			if n := namedOf(t); n != nil {
+				owner = n
+			}
+			if arr, ok := t.Underlying().(*types.Array); ok {
+				t = arr.Elem()
+			}
+			f := structOf(t).Field(i)
+			fname = f.Name()
+			t = f.Type()
+		}
+		if owner != nil && owner.Obj().Pkg() != nil {
+			v.Orig = owner.Obj().Pkg().Path() + "." + owner.Obj().Name() + "." + fname
+		}
+	}
+	if a.Kind == AGlobal && len(a.Path) == 0 && v.K == KAddr && v.A.Kind == AObj && fc.eng.initAlloc[a.Global] && !fc.eng.mutableGlobal[a.Global] {
+		fc.assumption("A-INIT: package-level pointers initialised to a composite literal and never reassigned are non-nil")
+		fc.sc.assume(tAnd(tNot(tEq(v.A.Base, "0")), tSel(fc.alloc(st), v.A.Base)))
+		fc.nonNil[v.A.Base] = true
+	}
 	if a.Kind == AGlobal && len(a.Path) == 0 && v.K == KIface && fc.eng.initStored[a.Global] && !fc.eng.mutableGlobal[a.Global] {
 		// A-INIT: package initialisers ran; sentinel values are non-nil and pairwise distinct
 		fc.assumption("A-INIT: package-level sentinel values are initialised, non-nil and pairwise distinct")
